@@ -15,7 +15,7 @@ open Py Xs.Bind Xs.Dict Proofs.C04 Proofs.C04Witness
 
 /-- **dict_rt**: for both dictionary factories, every parser configuration and every
 environment: an instance in the fragment `valOKj` (typed str/int/bool, model-class, list and
-wrapped-list fields, tokens fields (`xs:list`), `xs:anyAttribute` maps, wildcard fields — single, list, mixed — holding generic
+wrapped-list fields, QName values that read back, tokens fields (`xs:list`), compound fields (`Elements`: primitives by exact type, model instances singled out by their keys), `xs:anyAttribute` maps, wildcard fields — single, list, mixed — holding generic
 `AnyElement`s of any nesting, primitives and `None`; `None` only where the field default is `None`; nested instances
 unambiguous in their candidate pool) encodes to a JSON-native dictionary, and decoding that
 dictionary into the same class has exactly one admissible result: the instance itself. -/
@@ -43,6 +43,8 @@ an `AnyElement` without qname) are inside the fragment, for both factories -/
 example : valOKj benv0 genwCtx .dict 4 "G".toList genw_value = true
     ∧ valOKj benv0 genwCtx .filterNone 4 "G".toList genw_value = true
     ∧ valOKj benv0 anywCtx .filterNone 3 "W".toList anyw_value = true := ⟨by rfl, by rfl, by rfl⟩
+/-- a compound field whose int choice precedes the str choice, holding the string "1" -/
+example : valOKj benv0 compCtx .dict 3 "H".toList comp_value = true := by rfl
 example : valOKj benv0 okwCtx .dict 3 "Doc".toList okw_value = true := by rfl
 example : valOKj benv0 okwCtx .filterNone 3 "Doc".toList okw_value = true := by rfl
 /-- a field of a base class with a loaded subclass is inside the fragment when the keys decide -/
